@@ -28,8 +28,9 @@ def make_vectorizable(func: callable, backend: str):
     module = _module_from_backend(backend)
     tree = _make_vectorizable_ast(func, module=module)
 
-    # recreate scope of function and add array library
-    scope = func.__globals__
+    # recreate scope of function and add array library; work on a copy such that
+    # neither the new function nor the array library end up in the module of func
+    scope = dict(func.__globals__)
     scope[module] = import_module(module)
 
     # execute new ast
@@ -95,6 +96,11 @@ def _make_vectorizable_ast(func: callable, module: str):
 def _func_to_ast(func: callable):
     source = inspect.getsource(func)
     tree = ast.parse(source)
+    # Decorators must not be executed a second time (e.g., policy_info would register
+    # the function again). Their effects are carried over by functools.wraps.
+    for node in tree.body:
+        if isinstance(node, ast.FunctionDef):
+            node.decorator_list = []
     return tree
 
 
